@@ -29,37 +29,37 @@ checks = {
          "For every civil day of the year set (time of day rotating over the 26 slot edges; thorough: six times of day, plus a light pass over every other day of years 1..9998 that visits Solar, Lunar, EightChar and LunarTime only) the object graph reachable from the date (25 types) is built and every exported zero-argument method is called; totality, index ranges, vocabulary membership, non-empty strings and duplicate-free lists are checked on every result. The decoders of the packed yi/ji and shen-sha strings are additionally enumerated over their complete key space (60x60, 24x60).",
          "name-suffix keyed range/vocabulary rules; fixed list of optional (possibly empty) strings stated in evidence assumptions", "4 C08"),
  "C09": ("explicit-state BFS over call histories on the real package state (fixpoint on a canonical hidden-state digest, cross-checked by an unreduced depth-bounded enumeration) + adjacent-cache and order-independence sweeps + accessor-purity snapshots + stateless exploration of all interleavings at lock points under a hand-written controlled scheduler with iterative preemption bounding + separate free-running race-detector pass",
-         "Histories: every call of a 40-call alphabet from every reachable hidden state must return its pristine-state value; all sequences to depth 3 enumerated without reduction. Schedules: the library's sync import is redirected (build overlay) to a shim whose Lock/Unlock are scheduling points; 207 scenarios of 2-3 threads are run under every schedule up to the bound (quick 0,1,2; thorough unbounded with state-key pruning), each result compared with its sequential reference, deadlock = no enabled thread, lock and cache checked at the end. Also: for every year of the year set the same ~130 calls with the year cache primed by Y-1/Y+1/Y+2; one broad probe over all days of a year subset in five visiting orders (one process each) merged as a functional-dependence table; deep private-state snapshots of 26 object types before/after every exported zero-argument method (a write without lock operations = unsynchronised write by a read-only accessor). Long and structured histories, one process each, merged as functional-dependence tables keyed by the call: held objects and 124 probe days asked at process start, after all 123,658 lunar months of years 1..9998 and after 8,003 out-of-range year requests; base day asked after a day +-2^k years / months away with its objects held; a structural input (October 1582, leap days, range ends ...) as the very first call of a process; helper functions called with unrecognised names before their whole key space is enumerated; objects built before the cache is primed with a neighbouring year and used afterwards; exported tables compared before/after every accessor. Worker processes rotate their time zone. Below lock level: go -race on free-running copies of the same thread bodies and shared-accessor sweeps.",
+         "Histories: every call of a 40-call alphabet from every reachable hidden state must return its pristine-state value; all sequences to depth 3 enumerated without reduction. Schedules: the library's sync import is redirected (build overlay) to a shim whose Lock/Unlock are scheduling points; about 240 scenarios of 2-3 threads over an 11-operation alphabet (year cache, shared accessors, civil-side callers in a leap year, a common year and 1582) are run under every schedule up to the bound (quick 0,1,2; thorough unbounded with state-key pruning), each result compared with its sequential reference, deadlock = no enabled thread, lock and cache checked at the end. Also: for every year of the year set the same ~130 calls with the year cache primed by Y-1/Y+1/Y+2; one broad probe over all days of a year subset in five visiting orders (one process each) merged as a functional-dependence table; deep private-state snapshots of 26 object types before/after every exported zero-argument method (a write without lock operations = unsynchronised write by a read-only accessor). Long and structured histories, one process each, merged as functional-dependence tables keyed by the call: held objects and 124 probe days asked at process start, after all 123,658 lunar months of years 1..9998 and after 8,003 out-of-range year requests; base day asked after a day +-2^k years / months away with its objects held; a structural input (October 1582, leap days, range ends ...) as the very first call of a process; helper functions called with unrecognised names before their whole key space is enumerated; objects built before the cache is primed with a neighbouring year and used afterwards; exported tables compared before/after every accessor. Worker processes rotate their time zone. Below lock level: go -race on free-running copies of the same thread bodies and shared-accessor sweeps.",
          "scheduling points at mutex operations + race detector for unsynchronised accesses; hidden-state inventory confirmed by a go/ast scan at run time", "4 C09 / 3.3"),
  "C10": ("exhaustive enumeration of moments (days x 13 slot entries x 2 conventions, all Jie instants +-1s and slot ends, base years) with forward conversion as oracle",
-         "Every enumerated moment's four pillars are fed to the reverse lookup; completeness (a result in the same slot), soundness (every result converts forward to the same pillars, not before the base year) and strict order are checked on every lookup.",
+         "Every enumerated moment's four pillars are fed to the reverse lookup; the days around the civil calendar's irregular places (end of February in century years, the 1582 switch) with the year itself and year 1 as base year; completeness (a result in the same slot), soundness (every result converts forward to the same pillars, not before the base year) and strict order are checked on every lookup.",
          "forward conversion is C05's subject; wall-clock year read once per worker", "4 C10"),
  "C12": ("exhaustive enumeration of birth moments of a year set x gender x school, whole fortune tree per configuration, decode-and-compare / mod-60 reference",
          "Every day of the birth-year set at two times plus five moments around every Jie instant; direction, start offset (decoded back to elapsed time), start date, contiguity and ages of the ten great periods, and the pillars of every annual/minor/monthly fortune are compared with the rule sentences.",
          "school-1 tolerance 2 slots, school-2 1 minute (reasons in DESIGN.md C12)", "4 C12"),
  "C14": ("exhaustive enumeration of all days/months/years/targets of the holiday table against a parsed record-set model + exhaustive enumeration of Fix histories (each in its own fresh process) on the real package state",
-         "Pristine table: every view compared with sorted filters of the parsed record set; every day x 25 step counts for the workday walk; pay rate on every day. Fix machine: every history over a 33-call alphabet to depth 2 (quick and thorough) and, in the thorough tier, every depth-3 history whose second and third call come from a 17-call core alphabet, each executed in its own process, with all views, the workday walk and the pay rate observed before the first fix-up and re-compared with the record-set model after each.",
+         "Pristine table: every view compared with sorted filters of the parsed record set; every day x 25 step counts for the workday walk; pay rate on every day; the walk also on 20 whole years outside the table's span (Julian era, 1582, century years, range ends) and the pay rate on every day of 1900..2100. Fix machine: every history over a 33-call alphabet to depth 2 (quick and thorough) and, in the thorough tier, every depth-3 history whose second and third call come from a 17-call core alphabet, each executed in its own process, with all views, the workday walk and the pay rate observed before the first fix-up and re-compared with the record-set model after each.",
          "R5 insert/overwrite/delete semantics of Fix; statutory-day list as documented in the code", "4 C14"),
  "C11": (SWEEP + "; fixed list of ~95 route pairs per moment, functional-dependence tables for eight-character attributes",
-         "Every day x 14 moments (outside the quick set's years the thorough tier uses the quick rotation: 14 on term days, month ends and every third day, else 4): both routes of every pair are executed and compared; eight-character attributes are collapsed by the pillars selected by the current sect and a second value per key is a violation with two witnesses.",
+         "Every day x 14 moments (outside the quick set's years the thorough tier uses the quick rotation: 14 on term days, month ends and every third day, else 4): both routes of every pair are executed and compared (the deprecated eight-character aliases under both day-boundary conventions); per year, every accessor of lunar month objects taken from the year's 15-entry list or reached by Next(n) is compared with the directly built month; eight-character attributes are collapsed by the pillars selected by the current sect and a second value per key is a violation with two witnesses.",
          "dependence keys are projections of the four pillars (listed in evidence assumptions)", "4 C11"),
  "C13": (SWEEP + " R4 (rule sentences on the library's own term days and integer day stems)",
-         "Every civil day: presence, absence, name and index of nine-nines, dog days, pentads/phenology, New Year's Eve, Cold Food and She days compared with the rule sentences; index continuity along edges.",
+         "Every civil day: the 72 phenological names pairwise different; presence, absence, name and index of nine-nines, dog days, pentads/phenology, New Year's Eve, Cold Food and She days compared with the rule sentences; index continuity along edges.",
          "term days are the library's own (C03)", "4 C13"),
  "C15": (SWEEP + " R1; all seven week starts, both stepping modes, step alphabet",
          "Every civil day x 7 week starts: week membership, indices, whole-week and month-separated stepping (forward and back) against integer day arithmetic; every month/season/half-year/year unit.",
          "R1; position semantics of month-separated weeks as worded in the property", "4 C15"),
  "C16": (SWEEP + " R4 (step rules along every consecutive pair of moments, anchors from integer day numbers)",
-         "Every civil day x (midnight, every Jie instant -1s/+0s, noon, 23:59:59) x three conventions for year/month stars with the step rule on every edge and the 2024 anchor; day star against nearest-jiazi anchors; hour star of both implementations on all 13 slot entries.",
+         "Every civil day x (midnight, every Jie instant -1s/+0s, noon, 23:59:59) x three conventions for year/month stars with the step rule on every edge and the 2024 anchor; day star against nearest-jiazi anchors; hour star of both implementations on all 13 slot entries, unchanged when the date's eight-character convention is switched.",
          "term days/instants are the library's own; tie rules stated in evidence assumptions", "4 C16"),
  "C17": (SWEEP + "; functional-dependence tables keyed by (month, day, day pillar, term) + table membership",
-         "Every civil day: year offsets, constructor round trips, every predicate collapsed by its defining inputs and compared with the exported tables for non-leap months.",
+         "Every civil day: year offsets, constructor round trips, every predicate collapsed by its defining inputs and compared with the exported tables for non-leap months; in a leap month a listed-day predicate may hold only if the same day of the repeated month is listed.",
          "six-fasting-day predicate also keyed by month length (its definition)", "4 C17"),
  "C18": (SWEEP + "; functional-dependence tables (differential oracle, two witnesses) + four classical laws",
-         "Every civil day x 13 slot entries: ~110 attribute getters grouped by declared defining inputs, each group collapsed by key across all enumerated states (tables merged across worker processes); mansion order, duty-god, clash and nayin laws on every state/edge.",
+         "Every civil day x 13 slot entries: ~110 attribute getters grouped by declared defining inputs, each group collapsed by key across all enumerated states (tables merged across worker processes); mansion order, duty-god, clash and nayin laws on every state/edge; xun / empty branches of the fortune objects (great, annual, minor, monthly) share the pair-keyed table of the pillars.",
          "grouping of getters by defining input follows the property text", "4 C18"),
  "C19": (SWEEP + " regex + parse-back + strict order of consecutive strings",
-         "Every civil day 1..9999 x 26 times: canonical form, parse-back and strict lexicographic increase along the total order of moments (monotone => order-isomorphic => injective); every lunar/Tao/Foto/LunarMonth/LunarYear rendering reached is parsed back with the inverse tables.",
+         "Every civil day 1..9999 x 26 times: canonical form, parse-back and strict lexicographic increase along the total order of moments (monotone => order-isomorphic => injective); every lunar/Tao/Foto/LunarMonth/LunarYear rendering reached is parsed back with the inverse tables (at least one year digit required); moments reached by NextHour/NextDay/Next (whole days back in hours, round trips from midnight) must print as the canonical rendering of the moment reached.",
          "R6 parser is the inverse of the exported NUMBER/MONTH/DAY tables (uniqueness asserted)", "4 C19"),
  "C20": (SWEEP + " 366-entry sign table and k-th/last weekday reference from R1",
          "Every civil day 1..9998 in both tiers: sign against the conventional table and run structure along edges; festival lists against k-th / last weekday occurrence computed from integer day numbers; once-per-year counts per year.",
